@@ -24,6 +24,8 @@ EXPLANATION += ' R10.10 the array twin: every interpreted call repeated with arr
 
 EXPLANATION += ' R10.11 no integer-literal power (negative, or >= 3) is taken of a quantity that stays an integer when the arguments are integers (numba types arithmetic by its arguments: 0 for a negative power, silent int64 wrap-around for a large one).'
 TECHNIQUE += '; syntactic type flow in numba-compiled kernels (integer-literal powers of integer-typed arguments)'
+EXPLANATION += ' R10.8 also at the public entry point: quick_tidal_dissipation given fixed_q only (CPL; CTL with the time lag it derives itself; CTL with obliquity tides) is interpreted as a whole and the returned heating expression is evaluated in floating point at spin / n in {-3, -1, 0, 0.5, 0.99, 1.5, 3}: each value must be >= 0 (a finite sample of the spin axis: evidence of a sign error in the derived lag, not a proof of non-negativity).'
+TECHNIQUE += '; float evaluation of the extracted entry-point heating expression over a fixed grid of spin states (derived-lag sign)'
 
 def run(chk):
     repo = Repo(chk.repo)
